@@ -46,6 +46,7 @@ CONFS = [
     ("fat12-1k-sectors-root32", 200 * 1024, "1024 200 1024 12 32 2 - - -", 0xFF),
     ("fat16-18000s-2k-clusters-root64", 18000 * 512, "512 18000 2048 16 64 2 - - 2020202020202020202020", 0),
 ]
+STATUS_OFF_1216 = 0x25
 CORR = "Model/VolDir.v vol_create_empty_file_root / vol_remove_empty_file_root / vol_rename_in_root (model cvol; C01_vol_frame, C01_vol_create_decodes, C01_vol_format_create_decodes) vs src/dir.rs + src/fs.rs on the whole device image"
 
 NAMES = cdir_corr.NAMES
@@ -109,6 +110,7 @@ def build_script(conf, prelude, ops):
     if prelude:
         lines += ["mount 1 0 lossy"] + prelude + ["unmount", "pages"]
         p_prelude = len(lines) - 1
+    lines.append("wlog 1")        # the device writes of the operations: was the status byte written (Model/VolStatus.v)?
     marks = []
     h = 10
     for op in ops:
@@ -237,6 +239,7 @@ def run_stream(rep, tier, seed):
         resync_after |= declined
     # ---- evaluation
     nviol = ncmp = nna = nstale = nframe = 0
+    nmark = [0, 0]               # operations whose status write was compared / of them marked by the library
     kinds = {}
     chained = {}                 # longest run of compared ops per history on the model's own image (no resync in between)
     resync_needed = {}           # job -> op index after which the model declined: later comparisons are "stale"
@@ -311,6 +314,19 @@ def run_stream(rep, tier, seed):
                               % (conf[0], op[0], op[1:], mtag, itag, len(diff), (" (first at offset %d)" % diff[0]) if diff else ""),
                               {"theorem_or_correspondence": CORR, "script": lines[:pi + 1]}, nofail=True)
             continue
+        # ---- the dirty flag (Model/VolStatus.v vols_*; C12_vol_create / _remove_empty / _rename): the library wrote the status byte
+        # during this call iff the model's mounted operation did
+        mk = [t for t in mo if t in ("mark0", "mark1")]
+        if mk:
+            lib_marked = any(off == STATUS_OFF_1216 for off, _, _ in ir.writes())
+            nmark[0] += 1; nmark[1] += int(lib_marked)
+            if (mk[0] == "mark1") != lib_marked:
+                nviol += 1
+                rep.violation("[cvol] %s: %s %r: the library %s the status byte (offset 0x25) during the call, the mounted model operation %s"
+                              % (conf[0], op[0], op[1:], "wrote" if lib_marked else "did not write", "marks" if mk[0] == "mark1" else "does not mark"),
+                              {"theorem_or_correspondence": "Model/VolStatus.v vols_create_empty_file_root / vols_remove_empty_file_root / "
+                               "vols_rename_in_root (C12_vol_create, C12_vol_remove_empty, C12_vol_rename)", "script": lines[:pi + 1]}, nofail=True)
+                continue
         # ---- frame, directly on the device (independent of the model): nothing outside the root region changed
         prev_pi = None
         for oj in range(oi - 1, -1, -1):
@@ -330,7 +346,7 @@ def run_stream(rep, tier, seed):
     rep.cov["cvol_correspondence"] = {
         "histories": nhist + nrespell, "respell_second_match_histories_D27": nrespell, "duplicate_long_names_in_final_listing": ndup, "configs": [c[0] for c in CONFS[:min(nhist, len(CONFS))]], "ops_compared_whole_device": ncmp,
         "disagreements": nviol, "frame_failures_on_device": nframe, "declined_by_model_na": nna, "skipped_stale": nstale,
-        "model_outcomes": kinds, "device_pages_compared": pages_total,
+        "model_outcomes": kinds, "device_pages_compared": pages_total, "status_write_compared_ops": nmark[0], "status_write_marked": nmark[1],
         "longest_model_only_chain_per_history": [chained[j][0] for j in sorted(chained)]}
     nviol += run_sub_stream(rep, tier, seed)
     return nviol
